@@ -159,7 +159,27 @@ impl Prop for C12 {
           let opt = case.input.get("opt").and_then(|o| o.as_bool()).unwrap_or(false);
           let res = s.eval(&format!("y<{}{}> := x", annot(k2), if opt { "?" } else { "" }));
           match res {
-            Ev::Ok(got) => { compared += 1; if !allowed.contains(&got) { let class = if case.cell.contains("float-to-int") { "float-to-int-not-trunc-clamp" } else { "representable-value-changed" }; return Outcome::violated(class, format!("y<{}> := x with x = {} gave {} expected {}", k2, v.show(), got.show(), allowed[0].show())); } }
+            Ev::Ok(got) => { compared += 1; if !allowed.contains(&got) { let class = if case.cell.contains("float-to-int") { "float-to-int-not-trunc-clamp" } else { "representable-value-changed" }; return Outcome::violated(class, format!("y<{}> := x with x = {} gave {} expected {}", k2, v.show(), got.show(), allowed[0].show())); }
+              // the same conversion written as an annotated REFERENCE, at top level and inside a function arm, a match arm and a
+              // comprehension (x is a global there, not a pattern variable): a value it yields must be the converted one
+              if !opt && total <= 3 {
+                let k1 = v.kind_str();
+                let ctxs: Vec<(&str, String, String)> = vec![
+                  ("reference", String::new(), format!("y2 := x<{}>", annot(k2))),
+                  ("function-arm", format!("cv(a<{}>) => <{}>\n  | n => a<{}>.", annot(&k1), annot(k2), annot(k2)), "cv(x)".to_string()),
+                  ("function-arm-global", format!("cg(a<u64>) => <{}>\n  | n => x<{}>.", annot(k2), annot(k2)), "cg(1u64)".to_string()),
+                  ("match-arm", String::new(), format!("y3 := 1u64?\n  | 7 => x<{}>\n  | n => x<{}>\n  | * => x<{}>.", annot(k2), annot(k2), annot(k2))),
+                  ("comprehension", String::new(), format!("y4 := [x<{}> | i <- [1 2]]", annot(k2))),
+                ];
+                for (cname, def, src) in ctxs.iter() {
+                  if !def.is_empty() { if !s.eval(def).is_ok() { continue; } }
+                  if let Ev::Ok(g) = s.eval(src) {
+                    let ok = if *cname == "comprehension" { g.elems().iter().all(|e| allowed.contains(e)) } else { allowed.contains(&g) };
+                    if !ok { return Outcome::violated(&format!("context-conversion-differs:{}", cname), format!("x = {}: `{}{}{}` gave {} but y<{}> := x gives {}", v.show(), def, if def.is_empty() { "" } else { " ; " }, src, g.show(), k2, got.show())); }
+                  }
+                }
+              }
+            }
             Ev::Err(kind, msg) => { errs += 1; if nan { continue; } if first_err.is_none() { first_err = Some(Outcome::violated("error-instead-of-value", format!("y<{}> := x with x = {} failed: {} {}", k2, v.show(), kind, msg.chars().take(100).collect::<String>()))); } }
             Ev::Panic(m) => return Outcome::violated("panic-escaped", m),
             Ev::ParseErr(m) => return Outcome::inconclusive("harness-parse", m),
@@ -175,7 +195,9 @@ impl Prop for C12 {
         let m: CVal = serde_json::from_value(case.input["m"].clone()).unwrap();
         let (r, c) = m.shape();
         let mut s = Sess::new(); s.bind("m", &m, false);
-        let res = s.eval(&format!("n<[{}]:{},{}> := m", annot(k2), r, c));
+        // one case in three writes the annotation without a shape (<[k]>), which keeps the shape as well
+        let noshape = case.id.bytes().fold(0u32, |h, b| h.wrapping_mul(31).wrapping_add(b as u32)) % 3 == 0;
+        let res = if noshape { s.eval(&format!("n<[{}]> := m", annot(k2))) } else { s.eval(&format!("n<[{}]:{},{}> := m", annot(k2), r, c)) };
         let mut twins = Vec::new();
         for e in m.elems() { let mut t = Sess::new(); t.bind("x", &e, false); twins.push(t.eval(&format!("y<{}> := x", annot(k2)))); }
         let all_ok = twins.iter().all(|t| t.is_ok());
